@@ -5,12 +5,16 @@ open Bnum.Drive
 def answer (line : String) : String :=
   match (line.trimAscii.toString.splitOn " ").filter (· ≠ "") with
   | op :: cfg :: args =>
-    match parseCfg cfg with
-    | none => "bad-cfg"
-    | some c =>
-      match All.handlers.findSome? (fun h => h c op args) with
-      | some (mo, sp) => mo ++ "\t" ++ sp
-      | none => "bad-op"
+    let raw := All.rawHandlers.findSome? (fun h => h op (cfg :: args))
+    match raw with
+    | some (mo, sp) => mo ++ "\t" ++ sp
+    | none =>
+      match parseCfg cfg with
+      | none => "bad-cfg"
+      | some c =>
+        match All.handlers.findSome? (fun h => h c op args) with
+        | some (mo, sp) => mo ++ "\t" ++ sp
+        | none => "bad-op"
   | _ => "bad-line"
 
 partial def loop (h : IO.FS.Stream) (out : IO.FS.Stream) : IO Unit := do
